@@ -101,6 +101,22 @@ ValidNumber(t) ==
       o2 == IF dot THEN o1 + 1 ELSE o1
   IN IsDigit(Peek(t, o2)) /\ ScanNumber(t, o2, IF dot THEN "float" ELSE "lead") = Len(t)
 
+\* lexer.go: Lex, cases isNumber(ch) and '.': is the WHOLE query text one number token ?
+\* (first digit already consumed -> scanNumber(numberStateLead); '.' followed by a digit ->
+\* scanNumber(numberStateFloat) with the digit not yet consumed)
+QueryNumber(t) ==
+  /\ Len(t) >= 1
+  /\ \/ IsDigit(t[1]) /\ ScanNumber(t, 1, "lead") = Len(t)
+     \/ t[1] = Dot /\ IsDigit(Peek(t, 1)) /\ ScanNumber(t, 1, "float") = Len(t)
+\* [+-]? D+ : the texts tonumber / a query literal turn into an exact integer; its canonical text
+SignedIntegerShape(t) ==
+  LET b == IF Len(t) > 0 /\ t[1] \in {Minus, PlusC} THEN Tail(t) ELSE t IN Len(b) >= 1 /\ AllDigits(b)
+CanonSigned(t) ==
+  LET neg == t[1] = Minus
+      b == IF t[1] \in {Minus, PlusC} THEN Tail(t) ELSE t
+      d == StripLead(DigitVals(b))
+  IN IF Len(d) = 0 THEN <<48>> ELSE (IF neg THEN <<Minus>> ELSE <<>>) \o DigitCps(d)
+
 \* what tonumber accepts, declaratively: [+-]? ( D+ (. D...)? | . D+ ) ([eE][+-]?D+)?
 ToNumberDecl(t) ==
   LET b == IF Len(t) > 0 /\ t[1] \in {Minus, PlusC} THEN Tail(t) ELSE t IN
@@ -111,6 +127,9 @@ ToNumberDecl(t) ==
         \/ \E k \in 1..Len(m) : /\ m[k] = Dot
                                 /\ AllDigits(SubSeq(m, 1, k - 1)) /\ AllDigits(SubSeq(m, k + 1, Len(m)))
                                 /\ Len(m) >= 2
+
+\* a whole-text number token of a query, declaratively: the grammar of tonumber without a sign
+QueryNumberDecl(t) == Len(t) >= 1 /\ t[1] \notin {Minus, PlusC} /\ ToNumberDecl(t)
 
 (***************************************************************************)
 (* Exact decimal value of a JSON number literal.                            *)
